@@ -60,6 +60,8 @@ def build_object(spec, shared):
         repo = mg.rebuild(spec['repo'])
         return ReposCollection({'r': mg.TRepo('r', repo, 'origin')}).make_report(spec['text'])
     if kind == 'hdoc':
+        if spec.get('target') == 'method':
+            return Caller("http://h").m1      # a method that is not available in this object (auth type)
         return Caller("http://h") if spec['bound'] else Caller
     raise AssertionError(kind)
 
@@ -95,13 +97,21 @@ def render(obj, ospec, req, conf_dict, live_conf=None, observe=None):
     kind = ospec['kind']
     no_color = req['no_color']
     via = req['via']
+    if kind == 'hdoc' and via != 'global':
+        # the help text generated with an explicit palette (what HCommand does with its own palette)
+        palette = HCommand.HCmdPalette(live_conf if live_conf is not None else ColorsConfig(conf_dict), no_color)
+        if observe is not None:
+            observe(type("R", (), {"cp": palette})())
+        return "\n".join(str(line) for line in obj._h_doc.gen_help_text(
+            obj, HCommand._DFLT_FILT_ARG, palette, ospec['level'], False))
     if kind == 'hdoc':
         akcolor.set_global_colors_config(ColorsConfig(conf_dict, no_color=no_color))
         try:
             out = io.StringIO()
             with contextlib.redirect_stdout(out):
                 HCommand(ospec['level'])(obj)
-            return out.getvalue()
+            text = out.getvalue()
+            return text[:-1] if text.endswith("\n") else text   # print() adds the line break
         finally:
             akcolor.set_global_colors_config(None)
     conf = live_conf if live_conf is not None else ColorsConfig(conf_dict)
